@@ -178,12 +178,9 @@ Proof.
 Qed.
 
 (* all entries of a dictionary satisfying both invariants pass clause 1 *)
-Lemma entries_ok E c s' base :
+Lemma entries_ok E c s' (skip : Z * (desc * pv) -> bool) :
   keys_unique c -> Inv E c s' -> ShInv c s' ->
-  forallb (fun nd =>
-    (opt_eqb pv_eqb (get base (fst nd)) (get s' (fst nd))
-     && opt_eqb pv_eqb (get base (shadow (fst nd))) (get s' (shadow (fst nd))))
-    || entry_ok E s' nd) c = true.
+  forallb (fun nd => skip nd || entry_ok E s' nd) c = true.
 Proof.
   intros Hk HI HS. apply forallb_forall. intros [m [dm dfm]] Hin. apply orb_true_iff. right. cbn.
   pose proof (Hk _ _ Hin) as Htm. destruct (get s' m) as [w|] eqn:Hg; [|reflexivity].
@@ -363,3 +360,81 @@ Proof.
       destruct (assign_all E c [] kw) as [s1 [|e]]; cbn in *; assumption.
     + now apply assign_all_shinv.
 Qed.
+
+(* ====================================================================================== *)
+(* reading before assigning                                                                *)
+(* ====================================================================================== *)
+(* what is stored is no licence: an assignment the validator rejects is rejected in EVERY dictionary — also one
+   that already holds that very value (an unvalidated default a read put there) — and changes nothing *)
+Lemma setattr_rejects_whatever_is_stored E c s n d dflt v :
+  trait_of c n = Some (d, dflt) -> is_undefined v = false -> validate_s E c s d v = Reject ->
+  setattr E c s n v = (s, Raise ETraitError).
+Proof. intros Ht Hu Hv. unfold setattr. now rewrite Ht, Hu, Hv. Qed.
+
+Lemma read_then_assign_default_rejected E c s n d dflt :
+  trait_of c n = Some (d, dflt) -> is_undefined dflt = false -> validate_s E c (read_attr c s n) d dflt = Reject ->
+  get (read_attr c s n) n <> None /\
+  setattr E c (read_attr c s n) n dflt = (read_attr c s n, Raise ETraitError).
+Proof.
+  intros Ht Hu Hv. split.
+  - unfold read_attr. rewrite Ht. destruct (get s n) eqn:Hg; [congruence | rewrite get_set_same; discriminate].
+  - eapply setattr_rejects_whatever_is_stored; eauto.
+Qed.
+
+(* reads of attributes without a post_setattr whose default lies in the domain keep both invariants: the law holds on
+   every history that starts after such reads *)
+Definition read_ok (E : env) (c : cls) (n : Z) : Prop :=
+  forall d dflt, trait_of c n = Some (d, dflt) -> has_post d = false /\ dom E d dflt = true.
+
+Lemma has_post_false_unmapped d : has_post d = false -> is_mapped d = false.
+Proof. destruct d; cbn; try discriminate; reflexivity. Qed.
+
+Lemma read_attr_inv E c s n : read_ok E c n -> Inv E c s -> Inv E c (read_attr c s n).
+Proof.
+  intros Hr HI. unfold read_attr. destruct (trait_of c n) as [[d dflt]|] eqn:Ht; [|exact HI].
+  destruct (get s n); [exact HI|]. apply inv_set; [exact HI|].
+  intros d' dflt' H. rewrite Ht in H. inversion H; subst. now destruct (Hr _ _ Ht).
+Qed.
+
+Lemma read_attr_shinv E c s n : class_ok E c = true -> read_ok E c n -> ShInv c s -> ShInv c (read_attr c s n).
+Proof.
+  intros Hc Hr HS. unfold read_attr. destruct (trait_of c n) as [[d dflt]|] eqn:Ht; [|exact HS].
+  destruct (get s n) eqn:Hg; [exact HS|].
+  destruct (class_ok_at E c _ _ _ Hc Ht) as (_ & Hn & _).
+  intros m dm dfm w Htm. destruct (Z.eq_dec m n) as [->|Hmn].
+  - rewrite Ht in Htm. inversion Htm; subst. intros _. apply shadow_ok_unmapped, has_post_false_unmapped.
+    now destruct (Hr _ _ Ht).
+  - rewrite get_set_other by auto. intros Hw.
+    assert (Hsn : shadow m <> n).
+    { destruct (class_ok_at E c _ _ _ Hc Htm) as (_ & Hm & _). unfold shadow. lia. }
+    rewrite get_set_other by auto. eapply HS; eauto.
+Qed.
+
+Lemma pre_state_invs E c pre : class_ok E c = true -> Forall (read_ok E c) pre ->
+  Inv E c (pre_state c pre) /\ ShInv c (pre_state c pre).
+Proof.
+  intros Hc. unfold pre_state.
+  assert (G : forall s, Inv E c s -> ShInv c s -> Forall (read_ok E c) pre ->
+                        Inv E c (fold_left (read_attr c) pre s) /\ ShInv c (fold_left (read_attr c) pre s)).
+  { induction pre as [|n pre IH]; intros s HI HS Hf; cbn [fold_left]; [now split|].
+    inversion Hf; subst. apply IH; auto.
+    - now apply read_attr_inv.
+    - now apply (read_attr_shinv E). }
+  intros Hf. apply G; auto.
+  - intros n d dflt w _ H. discriminate.
+  - apply shinv_empty.
+Qed.
+
+Lemma law_after_reads E c pre ops i :
+  class_ok E c = true -> post_safe c = true -> keys_unique c -> Forall (read_ok E c) pre -> Forall (op_ok c) ops ->
+  law_hist E c i (pre_state c pre) (model_hist E c (pre_state c pre) ops) = [].
+Proof.
+  intros Hc Hp Hk Hr Hok. destruct (pre_state_invs E c pre Hc Hr) as [HI HS].
+  now apply law_on_every_history.
+Qed.
+
+(* the initial dictionary the model predicts passes clause 8 of the law (names read are trait names, listed once) *)
+Lemma law_pre_model_example :
+  let c := [(0, (DInstance 100 false false, PNone)); (1, (DInt, PInt 0)); (2, (DString 2 4 None, PStr []))] in
+  law_pre c [2; 0] (pre_state c [2; 0]) = [] /\ law_pre c [2; 0] [] <> [] /\ law_pre c [] [(1, PInt 0)] <> [].
+Proof. vm_compute. repeat split; discriminate. Qed.
